@@ -92,11 +92,25 @@ def run(ctx):
         for lp in loops:
             for s2 in ast.walk(lp):
                 if isinstance(s2, ast.If) and "_is_mutable_container" in norm(s2.test):
+                    from engine.cfg import decompose as _dec
+                    atoms = [(norm(e), t) for e, t in _dec(s2.test, True) if not isinstance(e, ast.BoolOp)]
+                    narrowing = [a for a in atoms if not (a[0].startswith("_is_mutable_container(") and a[1] is True)
+                                 and not (a[0] in ("s != 'default'", "s == 'default'") )]
+                    if narrowing or not any(a[0].startswith("_is_mutable_container(") and a[1] for a in atoms):
+                        ctx.fail("R12.c", g, s2, "the re-copy of mutable slot values is restricted by an extra condition (%s): some mutable containers "
+                                                 "(e.g. an empty objects list) stay shared between the class Parameter and its per-instance copies" % (
+                                                     ", ".join("%s is %s" % a for a in narrowing) or norm(s2.test)),
+                                 key="%s::narrowed-slot-copy" % g.qualname,
+                                 input="Selector(objects=[]) on a class; inst.param.s.objects.append(1) -> the class Parameter's objects change too")
+                        ok = None
+                        continue
                     sets = [c for b in s2.body for c in ast.walk(b) if isinstance(c, ast.Call) and norm(c.func) == "setattr"
                             and len(c.args) == 3 and isinstance(c.args[2], ast.Call) and norm(c.args[2].func) in ("copy.copy", "copy.deepcopy")]
                     if sets:
                         ok = True
-        if ok:
+        if ok is None:
+            pass
+        elif ok:
             ctx.ok("R12.c", g, loops[0], "every mutable-container slot is re-copied")
         else:
             ctx.fail("R12.c", g, g.node, "mutable slot values (bounds lists, objects, ...) of the per-instance Parameter are shared with the class Parameter",
@@ -138,8 +152,20 @@ def run(ctx):
     for n in spc.live_nodes():
         if n.kind == "stmt" and isinstance(n.ast, ast.Assign) and isinstance(n.ast.targets[0], ast.Subscript) and isinstance(n.ast.targets[0].value, ast.Name):
             fills.setdefault(n.ast.targets[0].value.id, []).append(spc.conditions(n))
+    ALLOWED_ATOMS = {"p.instantiate", "p.constant", "pname != 'name'", "pname == 'name'", "p.instantiate and pname != 'name'", "p.constant and pname != 'name'"}
+
     def selected_by(dname, text):
-        return dname in fills and all(cond_holds(c, text, True) for c in fills[dname])
+        if dname not in fills:
+            return False
+        for c in fills[dname]:
+            if not cond_holds(c, text, True):
+                return False
+            extra = [norm(e) for e, t in c if norm(e) not in ALLOWED_ATOMS and not isinstance(e, ast.BoolOp)]
+            if extra:
+                narrowed.append((dname, extra))
+                return False
+        return True
+    narrowed = []
     loops = {}
     for st in walk_stmts(sp.node):
         if isinstance(st, ast.For) and isinstance(st.iter, ast.Call) and isinstance(st.iter.func, ast.Attribute) and isinstance(st.iter.func.value, ast.Name):
@@ -153,7 +179,8 @@ def run(ctx):
                                       "instantiate=True parameters are not deep-copied per instance (mutable defaults are shared)")
     (ctx.ok if ok_ref else ctx.fail)("R12.e", sp, ref[0] if ref else sp.node,
                                      "constant parameters are referenced on the instance (deepcopy=False)" if ok_ref else
-                                     "constant parameters are not referenced on the instance at construction (a later class-level change reaches existing instances)")
+                                     "not every constant parameter is referenced on the instance at construction%s: a later class-level set changes what an existing instance holds" % (
+                                         " (selection narrowed by %s)" % ", ".join(narrowed[-1][1]) if narrowed else ""))
     ip = ctx.repo.func(P + "Parameters._instantiate_param")
     src = norm(ip.node)
     a = ip.node.args
